@@ -44,14 +44,7 @@ fn tool_resolution2(text: &str, toks: &[NameTok]) -> Option<(Vec<Option<usize>>,
             out.push(Some(i));
             let id = emmylua_code_analysis::LuaDeclId::new(file_id, rowan::TextSize::new(t.offset as u32));
             let typ = model.get_type(id.into());
-            followable[i] = matches!(
-                typ,
-                emmylua_code_analysis::LuaType::Signature(_)
-                    | emmylua_code_analysis::LuaType::Table
-                    | emmylua_code_analysis::LuaType::TableConst(_)
-                    | emmylua_code_analysis::LuaType::Ref(_)
-                    | emmylua_code_analysis::LuaType::Def(_)
-            );
+            followable[i] = is_followable(&typ);
             continue;
         }
         match observe(&model, toks, &by_off, i, SemanticDeclLevel::NoTrace) {
@@ -61,6 +54,17 @@ fn tool_resolution2(text: &str, toks: &[NameTok]) -> Option<(Vec<Option<usize>>,
         }
     }
     Some((out, followable))
+}
+
+/// function/table/class typed values (also as a member of a union, e.g. the nullable `(fun())?` of a field that is
+/// re-assigned elsewhere): the references handler follows such values to the places they were assigned from/to
+fn is_followable(t: &emmylua_code_analysis::LuaType) -> bool {
+    use emmylua_code_analysis::LuaType;
+    match t {
+        LuaType::Signature(_) | LuaType::DocFunction(_) | LuaType::Function | LuaType::Table | LuaType::TableConst(_) | LuaType::Ref(_) | LuaType::Def(_) => true,
+        LuaType::Union(u) => u.into_vec().iter().any(is_followable),
+        _ => false,
+    }
 }
 
 type R = ((u32, u32), (u32, u32));
